@@ -643,7 +643,7 @@ Lemma csv_row_safe r : safeo (csv_row false r).
 Proof.
   unfold csv_row. cbn [andb].
   apply bind_safe; [apply kinds_of_safe|]. intros [|k0 krest]; [apply safeo_err|].
-  destruct (kind_is_complex k0 && is_empty_list krest); [apply safeo_err|].
+  cbn [andb].
   apply bind_safe; [|intro t; apply safeo_ok].
   destruct (negb (kind_is_complex k0)).
   - repeat match goal with |- safeo (if ?c then Err else _) => destruct c; [apply safeo_err|] end.
@@ -945,5 +945,14 @@ Lemma csv_nodata_witness :
     = Ok {| ab_id := Some (lit "X"); ab_data := []; ab_target := None |}
   /\ csv_row false (row "X" "" "s" "TextSelector" "r" "" "" "0" "5" "" "")
     = Ok {| ab_id := Some (lit "X"); ab_data := []; ab_target := Some (BText (lit "r") (CBegin 0) (CBegin 5)) |}
-  /\ csv_row false (row "X" "" "s" "MultiSelector" "r" "" "" "0" "5" "" "") = Err.
+  /\ csv_row false (row "X" "" "s" "bogus" "r" "" "" "0" "5" "" "") = Err.
+Proof. vm_compute. repeat split. Qed.
+
+(* a complex kind without sub-selector kinds: refused before 8591e12, now the empty complex
+   selector the store itself writes; more pieces in another column are still an error *)
+Lemma csv_complex_alone_witness :
+  csv_row true (row "X" "D0" "s" "MultiSelector" "" "" "" "" "" "" "") = Err
+  /\ csv_row false (row "X" "D0" "s" "MultiSelector" "" "" "" "" "" "" "")
+     = Ok {| ab_id := Some (lit "X"); ab_data := [(lit "s", lit "D0")]; ab_target := Some (BComplex KMulti []) |}
+  /\ csv_row false (row "X" "D0" "s" "MultiSelector" "a;b" "" "" "" "" "" "") = Err.
 Proof. vm_compute. repeat split. Qed.
